@@ -163,6 +163,9 @@ func (e *Encoder) writeValue(val reflect.Value, tagType byte) error {
 
 		for i := 0; i < val.Len(); i++ {
 			arrType, arrVal := getTagType(val.Index(i))
+			if arrType != eleType {
+				return fmt.Errorf("cannot encode a list of mixed tag types 0x%02x and 0x%02x", eleType, arrType)
+			}
 			err := e.writeValue(arrVal, arrType)
 			if err != nil {
 				return err
